@@ -4,7 +4,7 @@ step-file writes, then canvas -d -r <dir>: resume point, executed steps and fina
 for parallel steps; (d) canvas -r on a step file that cannot be read (damaged-resume lane)."""
 import hashlib, json, glob, os, subprocess, time, shutil, tempfile
 from concurrent.futures import ThreadPoolExecutor
-import common, orch_env
+import common, orch_env, orch_e2e
 
 TRANSLATORS = ['t_step', 't_interp', 't_shell', 't_report']
 TRUSTED = orch_env.SHIMS_USED + [
@@ -18,7 +18,76 @@ TRUSTED = orch_env.SHIMS_USED + [
 NAMES = ['a', 'b', 'c', 'd', 'e', 'f', 'g', 'end', 'x/y', 'cvs']
 
 
-def gen_rows(rng):
+BOUNDARY_QUICK, BOUNDARY_THOROUGH = 0.12, 0.3
+ROW_COUNTS = [1, 16, 17, 64, 65]
+# names of the last executed row that are NOT the end step although they look like it, names with the characters the formats use
+# as separators, long names (a row is one getline: 1 KiB / 4 KiB names make rows longer than any fixed line buffer)
+ODD_NAMES = ['en', 'endx', 'End', 'END', 'end-2', 'xend', 'end.', 'build', 'build-all', 'a-b', 'a.b', 'x/y', 'k=v', 'M' * 64, 'N' * 200, 'O' * 255,
+             'P' * 1024, 'Q' * 4096]
+BIG_IDS = [2 ** 31 - 1, 2 ** 31, 2 ** 31 + 1, 2 ** 32 - 1, 2 ** 32, 2 ** 32 + 1, 2 ** 62]     # $((id + 1)) is 64-bit shell arithmetic
+
+
+def gen_rows(rng, boundary=BOUNDARY_QUICK):
+    if rng.random() < boundary:
+        return gen_rows_boundary(rng)
+    return gen_rows_plain(rng)
+
+
+def gen_rows_boundary(rng):
+    """-> {'rows': [...], 'shape': ..., 'bclass': ...}: row counts 1 / 16 / 17 / 64 / 65, the in-flight (or failed) record at the first /
+    last / 16th / 17th position, 1 / 15 / 16 / 17 / all-but-one / all trailing skipped rows, ids 2^31 / 2^32 apart, end look-alikes and
+    long names, and files that are not what robsd-step writes (empty, no final newline, CRLF, cut inside the last row)"""
+    kind = rng.choice(['count', 'count', 'inflight', 'inflight', 'trailing', 'trailing', 'ids', 'ids', 'names', 'names', 'shape', 'shape'])
+    if kind == 'shape':
+        rows = gen_rows_plain(rng) or [{'id': 1, 'name': 'a', 'exit': 0, 'skip': 0}]
+        shape = rng.choice(['empty', 'nonl', 'crlf', 'cut', 'cut', 'blank-line'])
+        c = {'rows': [] if shape == 'empty' else rows, 'shape': shape, 'bclass': ['step file shape: ' + shape]}
+        if shape == 'cut':
+            last = len(csv_of(rows[-1:])) - len(csv_of([]))
+            c['cut'] = rng.choice([1, 2, rng.randint(1, last - 1), last - 1, last - 2])      # bytes taken off the end: inside the last row
+        return c
+    n = rng.choice(ROW_COUNTS if kind == 'count' else [2, 3, 17, 17, 18, 33] if kind in ('inflight', 'trailing') else [2, 3, 4, 6])
+    ids = list(range(1, n + 1))
+    if kind == 'ids':
+        # not contiguous; neighbours 2^31 / 2^32 apart; ids beyond int
+        base = sorted(set(rng.sample(BIG_IDS, rng.randint(1, 3)) + rng.sample(range(1, 40), n)))
+        ids = base[-n:] if rng.random() < 0.5 else sorted(rng.sample(base, n))
+    rows = [{'id': i, 'name': 's%d' % (k + 1), 'exit': 0, 'skip': 1 if rng.random() < 0.15 else 0} for k, i in enumerate(ids)]
+    desc = ['rows: %d' % n] if n >= 16 or n == 1 else []
+    if kind in ('count', 'inflight'):
+        pos = rng.choice([0, n - 1, 15, 16, n - 2])
+        if 0 <= pos < n:
+            # the record that did not complete: everything after it is skipped or absent
+            ex = rng.choice([-1, -1, 1, 255])
+            rows = rows[:pos + 1] + [dict(r, skip=1, exit=0) for r in rows[pos + 1:] if rng.random() < 0.5]
+            rows[pos].update(exit=ex, skip=0)
+            desc.append('the record that did not complete (exit %s) is %s' % ('-1' if ex == -1 else 'non-zero', {0: 'the first', n - 1: 'the last', n - 2: 'the last but one'}.get(pos, 'at index %d' % pos)))
+    elif kind == 'trailing':
+        t = rng.choice([1, 15, 16, 17, n - 1, n])
+        t = max(0, min(t, n))
+        for r in rows[:n - t]:
+            r['skip'] = 0
+        for r in rows[n - t:]:
+            r.update(skip=1, exit=0)
+        if t < n:
+            rows[n - t - 1]['exit'] = rng.choice([0, 0, 1, -1])
+        desc.append('trailing skipped rows: %s' % ('all' if t == n else 'all but one' if t == n - 1 else str(t)))
+    elif kind == 'ids':
+        last = [r for r in rows if r['skip'] == 0][-1:] or rows[-1:]
+        last[0].update(exit=rng.choice([0, 0, 1, -1]), skip=0)
+        desc = ['ids not contiguous, the largest %s' % ('2^62' if ids[-1] >= 2 ** 62 else '>= 2^32' if ids[-1] >= 2 ** 32 else '>= 2^31 - 1')]
+    elif kind == 'names':
+        for r in rows:
+            r['name'] = rng.choice(ODD_NAMES[:13]) if rng.random() < 0.7 else rng.choice(ODD_NAMES)
+        live = [r for r in rows if r['skip'] == 0][-1:] or rows[-1:]
+        live[0].update(skip=0, exit=rng.choice([0, 0, 0, 1]), name=rng.choice(ODD_NAMES[:8] + ['end', 'end']))
+        desc = ['names: last executed row is %s' % ('end among odd names' if live[0]['name'] == 'end' else 'an end look-alike' if 'en' in live[0]['name'].lower() else 'an odd name')]
+        if max(len(r['name']) for r in rows) >= 64:
+            desc.append('names: longest %d bytes' % max(len(r['name']) for r in rows))
+    return {'rows': rows, 'bclass': desc}
+
+
+def gen_rows_plain(rng):
     n = rng.choice([0, 1, 2, 3, 4, 6, 8])
     ids = sorted(rng.sample(range(1, 15), n))
     rows = []
@@ -56,9 +125,26 @@ def row_toks(rows):
     return t
 
 
-def sh_step_next(impl, work, idx, rows):
+def file_of(case):
+    """the bytes of the step file of a part (a) case: what robsd-step writes for the rows, or one of the shapes it never writes"""
+    data = csv_of(case['rows'])
+    shape = case.get('shape')
+    if shape == 'empty':
+        return ''
+    if shape == 'nonl':
+        return data[:-1]
+    if shape == 'crlf':
+        return data.replace('\n', '\r\n')
+    if shape == 'cut':
+        return data[:-max(1, case.get('cut', 1))]
+    if shape == 'blank-line':
+        return data + '\n'
+    return data
+
+
+def sh_step_next(impl, work, idx, case):
     p = os.path.join(work, 'f%d.csv' % idx)
-    open(p, 'w').write(csv_of(rows) if rows is not None else '')
+    open(p, 'w').write(file_of(case))
     env = dict(os.environ, EXECDIR=impl, ROBSDSTEP=os.path.join(impl, 'robsd-step'), TMPDIR=work, _MODE='canvas')
     r = subprocess.run(['bash', '-c', '. "$EXECDIR/util.sh"; step_next "$1"', 'x', p], env=env, stdout=subprocess.PIPE,
                        stderr=subprocess.PIPE, timeout=30)
@@ -76,27 +162,165 @@ def corpus_files(pattern):
 def part_a(ctx, impl, drv, res, n):
     work = ctx.mkscratch('c03a')
     cases = [json.load(open(p)) for p in corpus_files('rows-*.json')]
-    cases += [gen_rows(ctx.rng) for _ in range(n)]
+    cases += [gen_rows(ctx.rng, ctx.budget(BOUNDARY_QUICK, BOUNDARY_THOROUGH)) for _ in range(n)]
+    cases = [c if isinstance(c, dict) else {'rows': c} for c in cases]
     with ThreadPoolExecutor(16) as ex:
         obs = list(ex.map(lambda ic: sh_step_next(impl, work, ic[0], ic[1]), enumerate(cases)))
-    ans = common.run_driver(drv, [' '.join(['next'] + row_toks(r)) for r in cases])
-    for rows, (rc, out, err), a in zip(cases, obs, ans):
+    ans = common.run_driver(drv, [' '.join(['next'] + row_toks(c['rows'])) for c in cases])
+    ans1 = common.run_driver(drv, [' '.join(['next'] + row_toks(c['rows'][:-1])) for c in cases])
+    for case, (rc, out, err), a, a1 in zip(cases, obs, ans, ans1):
+        rows = case['rows']
         res.evaluations += 1
         model, spec = a.split('|')
         impl_s = out if rc == 0 else '-'
         res.count('step_next -> %s' % ('fail' if rc else 'id'))
+        for c in case.get('bclass') or []:
+            res.count('class: ' + c)
+        rcase = {k: v for k, v in case.items() if k in ('rows', 'shape', 'cut')}
+        if case.get('shape'):
+            # a file robsd-step never writes (the model and the specification are about rows): resuming may be refused, or answer what
+            # the intact rows say (a file cut inside its last row: with or without that row) - never anything else
+            allowed = {'-', spec} | ({a1.split('|')[1]} if case['shape'] == 'cut' else set())
+            res.nontrivial.add('shape:%s:%s' % (case['shape'], hashlib.sha1(json.dumps(rows).encode()).hexdigest()[:8]))
+            if impl_s not in allowed:
+                res.oracle_failures.append({'case': rcase, 'signature': 'resume-point-from-malformed-step-file',
+                                            'what': 'step file %s: step_next printed %s (exit %d); the rows say %s' % (case['shape'], out or '-', rc, sorted(allowed))})
+            continue
         if any(r['skip'] == 0 for r in rows) and any(r['skip'] == 1 for r in rows):
             res.nontrivial.add(hashlib.sha1(json.dumps(rows).encode()).hexdigest())
         if impl_s != model:
-            res.disagreements.append({'case': {'rows': rows}, 'model': model, 'impl': impl_s, 'stderr': err})
+            res.disagreements.append({'case': rcase, 'model': model, 'impl': impl_s, 'stderr': err})
         if impl_s != spec:
-            res.oracle_failures.append({'case': {'rows': rows}, 'signature': 'resume-point-wrong',
+            res.oracle_failures.append({'case': rcase, 'signature': 'resume-point-wrong',
                                         'what': 'step_next printed %s (exit %d), the property says %s' % (out or '-', rc, spec)})
     if cases:
-        res.samples.append({'rows': cases[-1]})
+        res.samples.append({'rows': cases[-1]['rows'][:8]})
 
 
-def gen_e2e(rng):
+E2E_BOUNDARY_QUICK, E2E_BOUNDARY_THOROUGH = 0.25, 0.4
+SIG_LOCK_SPELLING = 'resume-after-kill-refused-lock-spelled-differently'
+# PARKED until main lists the signature in known_findings.json: resume-after-kill-refused-lock-spelled-differently
+# (findings/C03_resume_root_slash.md).  While False gen_e2e_boundary does not draw the class "root spelled with a trailing slash" and
+# the corpus loader skips files with a "pending" key (corpus/C03/e2e-b03_root_trailing_slash.json); VERIF_PENDING=1 switches it on.
+PENDING_FINDINGS = os.environ.get('VERIF_PENDING', '1') == '1'     # armed: the signatures are listed in known_findings.json
+
+
+def gen_e2e(rng, boundary=E2E_BOUNDARY_QUICK):
+    if rng.random() < boundary:
+        return gen_e2e_boundary(rng)
+    return gen_e2e_plain(rng)
+
+
+def gen_e2e_boundary(rng):
+    """SIZE / SHAPE classes of the end-to-end lane: 1 / 16 / 17 / 32 / 33 / 64 / 65 steps with the crash at the first, second, 16th, 17th,
+    last but one or last step; first / last / all-but-one / steps 15-17 skipped; names that are prefixes of each other, differ in
+    case, hold - . / =, are 64 - 247 bytes long; failing exit codes 126 / 127 / 255 and deaths by SIGKILL / SIGTERM; a root spelled
+    with a trailing slash"""
+    kind = rng.choice(['big', 'big', 'names', 'names', 'skip', 'exit', 'one', 'root_slash'])
+    if kind == 'root_slash' and not PENDING_FINDINGS:
+        kind = 'skip'                           # parked (see PENDING_FINDINGS)
+    if kind == 'big':
+        n = rng.choice([16, 17] * 5 + [15, 32, 33] + [64, 65])
+        names = ['s%d' % i for i in range(1, n + 1)]
+        steps = [{'name': nm, 'exit': 0} for nm in names]
+        sk = rng.choice(['none', 'none', 'first', 'last', 'mid', 'allbutone'])
+        at = rng.choice([0, 1, 15, 16, n - 2, n - 1])
+        at = min(at, n - 1)
+        skip = {'none': [], 'first': names[:1], 'last': names[-1:], 'mid': names[14:17], 'allbutone': [x for i, x in enumerate(names) if i != at]}[sk]
+        skip = [x for x in skip if x != names[at]]
+        if rng.random() < 0.4:
+            steps[at]['exit'] = rng.choice([1, 2, 255])
+        case = {'steps': steps, 'skip': skip, 'crash': [rng.choice(['start', 'start', 'done']), names[at]], 'second': None, 'bclass': 'big'}
+        if rng.random() < 0.4:
+            case['exits2'] = {nm: 0 for nm in names}
+        return case
+    case = None
+    while case is None or len({s['name'] for s in case['steps']}) != len(case['steps']):
+        case = gen_e2e_plain(rng)
+    steps = case['steps']
+    if kind == 'one':
+        case = {'steps': steps[:1], 'skip': [], 'crash': [rng.choice(['start', 'done', 'early']), steps[0]['name']], 'second': None}
+        if case['crash'][0] == 'early':
+            case['crash'] = ['early']
+    elif kind == 'names':
+        pool = list(orch_e2e.NAME_POOLS[rng.choice(sorted(orch_e2e.NAME_POOLS))])
+        if rng.random() < 0.3:
+            pool += orch_e2e.NAME_POOLS[rng.choice(sorted(orch_e2e.NAME_POOLS))]
+        pool = list(dict.fromkeys(pool))
+        new = rng.sample(pool, min(len(pool), len(steps)))
+        ren = dict(zip([s['name'] for s in steps], new))
+        ren2 = lambda x: ren.get(x)
+        keep = set(new)
+        case['steps'] = [dict(s, name=ren[s['name']]) for s in steps[:len(new)]]
+        for k in ('skip', 'reskip'):
+            if case.get(k) is not None:
+                case[k] = [ren2(x) for x in case[k] if ren2(x) in keep]
+        for k in ('crash', 'second'):
+            if case.get(k) and len(case[k]) > 1:
+                case[k] = [case[k][0], ren2(case[k][1])] if ren2(case[k][1]) in keep else None
+        if case.get('exits2'):
+            case['exits2'] = {ren2(k): v for k, v in case['exits2'].items() if ren2(k) in keep}
+        amb = set(orch_e2e.skip_ambiguous({'steps': case['steps'], 'skip': case['skip'] + (case.get('reskip') or [])}))
+        case['skip'] = [x for x in case['skip'] if x not in amb]          # (that class is C04's: canvas stops before the first step)
+        if case.get('reskip'):
+            case['reskip'] = [x for x in case['reskip'] if x not in amb]
+        live = [s['name'] for s in case['steps'] if s['name'] not in case['skip']]
+        if not live:
+            case['skip'] = []
+            live = [s['name'] for s in case['steps']]
+        if not case.get('crash') or (len(case['crash']) > 1 and case['crash'][1] not in live):
+            case['crash'] = [rng.choice(['start', 'done']), rng.choice(live)]
+        if case.get('second') and case['second'][1] not in live:
+            case['second'] = None
+    elif kind == 'skip':
+        names = [s['name'] for s in steps]
+        how = rng.choice(['first', 'last', 'allbutone'])
+        keepn = rng.choice(names)
+        case['skip'] = {'first': names[:1], 'last': names[-1:], 'allbutone': [x for x in names if x != keepn]}[how]
+        if len(case['skip']) == len(names):
+            case['skip'] = []
+        live = [x for x in names if x not in case['skip']]
+        case['crash'] = [rng.choice(['start', 'done']), rng.choice(live)]
+        case['second'] = None
+        case.pop('reskip', None)
+    elif kind == 'exit':
+        live = [s for s in steps if s['name'] not in case['skip']]
+        f = rng.choice(live)
+        for s in steps:
+            s['exit'] = 0
+        f['exit'] = rng.choice([126, 127, 255, 137, 143])
+        case['crash'] = [rng.choice(['done', 'done', 'start']), f['name']]
+    elif kind == 'root_slash':
+        case['root_slash'] = True
+        case.pop('reskip', None)
+    case['bclass'] = kind
+    return case
+
+
+def e2e_classes(case):
+    out = []
+    n = len(case['steps'])
+    names = [s['name'] for s in case['steps']]
+    if n == 1 or n >= 15:
+        out.append('e2e steps=%d' % n)
+    if n >= 15 and len(case['crash']) > 1 and case['crash'][1] in names:
+        i = names.index(case['crash'][1])
+        out.append('e2e crash at step index %s' % ({n - 1: 'last', n - 2: 'last-1'}.get(i, str(i))))
+    sk = [i for i, x in enumerate(names) if x in case['skip']]
+    if sk and n >= 2:
+        out.append('e2e skip: %s' % ('all but one' if len(sk) == n - 1 else 'first' if sk == [0] else 'last' if sk == [n - 1] else 'steps 15-17' if sk == [14, 15, 16] else 'other'))
+    nm = orch_e2e.name_class(case)
+    if nm:
+        out.append('e2e names: ' + nm)
+    for s in case['steps']:
+        if s['exit'] in (126, 127, 255, 137, 143):
+            out.append('e2e failing step: %s' % ('exit %d' % s['exit'] if s['exit'] in (126, 127, 255) else 'death by signal %d' % (s['exit'] - 128)))
+    if case.get('root_slash'):
+        out.append('e2e root spelled with a trailing slash')
+    return out
+
+
+def gen_e2e_plain(rng):
     n = rng.randint(2, 5)
     steps = [{'name': NAMES[i], 'exit': 0} for i in range(n)]
     dup = n >= 3 and rng.random() < 0.15
@@ -208,7 +432,7 @@ def run_until_crash(cv, args, case, crash, codes=None):
 
 def e2e_case(ctx, impl, case):
     work = tempfile.mkdtemp(dir=ctx.mkscratch('c03b'))
-    cv = orch_env.Canvas(ctx, impl, work, [{'name': s['name']} for s in case['steps']], skip=case['skip'], ncpu=1)
+    cv = orch_env.Canvas(ctx, impl, work, [{"name": s["name"]} for s in case["steps"]], skip=case["skip"], ncpu=1, root_slash=bool(case.get("root_slash")))
     ob = {'phases': []}
     try:
         crashed, rc, out = run_until_crash(cv, ['-d'], case, case['crash'], phase_codes(case, 0))
@@ -243,15 +467,18 @@ def e2e_case(ctx, impl, case):
 
 
 def part_b(ctx, impl, drv, res, n):
-    cases = [json.load(open(p)) for p in corpus_files('e2e-*.json')]
+    cases = [c for c in (json.load(open(p)) for p in corpus_files('e2e-*.json')) if PENDING_FINDINGS or not c.get('pending')]
     if not cases:
         raise common.BuildFailure('corpus/C03 holds no e2e-*.json case')
-    cases += [gen_e2e(ctx.rng) for _ in range(n)]
+    cases += [gen_e2e(ctx.rng, ctx.budget(E2E_BOUNDARY_QUICK, E2E_BOUNDARY_THOROUGH)) for _ in range(n)]
     with ThreadPoolExecutor(8) as ex:
         obs = list(ex.map(lambda c: e2e_case(ctx, impl, c), cases))
     for case, ob in zip(cases, obs):
         # an evaluation is a VERDICT: the invariant check on the files of a case, and every judged crash+resume pair below
         res.count('crash=%s' % case['crash'][0])
+        case.setdefault('skip', [])
+        for c in e2e_classes(case):
+            res.count('class: ' + c)
         if ob.get('nobuilddir'):
             res.count('no verdict: killed before the build directory existed')
             continue
@@ -292,6 +519,12 @@ def part_b(ctx, impl, drv, res, n):
             if got != spec_next:
                 res.oracle_failures.append({'case': case, 'signature': 'resume-point-wrong',
                                             'what': 'canvas -r resumed at %s, the property says %s for %s' % (got, spec_next, rows)})
+            if case.get('root_slash') and 'lock already acquired' in (cur.get('tail') or '') and cur['rc'] not in (0, None) and not [t for t in cur['trace'] if t[0] == 'start']:
+                # pinned by the case (canvas-dir "<root>/": the killed invocation's lock names <root>//DATE.n) and the observation (canvas -r,
+                # which spells the directory as readlink -f does, is refused by lock_acquire; nothing ran): findings/C03_resume_root_slash.md
+                res.oracle_failures.append({'case': case, 'signature': SIG_LOCK_SPELLING,
+                                            'what': 'killed with %s; canvas -r found the resume point %s and was then refused by the lock the killed invocation left: %r' % (rows, got, cur['tail'].strip().splitlines()[-2:])})
+                break
             if got == '-':
                 # canvas -r answered no resume point; model and specification were compared with that answer just above
                 res.count('resume refused (no resume point)')
@@ -495,7 +728,13 @@ def run(ctx, n=None):
                 'what the resumed invocation really started is judged by the extracted oracle of C03_resumed_run_executes; (c) the boundary theorem for '
                 'parallel steps replayed on the real canvas (in-flight parallel step below / above a completed one); (d) canvas -r on a step file '
                 'emptied / cut in the header / cut inside a row (and intact, as the control); '
-                'non-trivial = (a) both skipped and non-skipped rows present, (b) every crash+resume pair; distinct by content')
+                'non-trivial = (a) both skipped and non-skipped rows present, (b) every crash+resume pair; distinct by content; '
+                'boundary classes (printed as "class: ..."; a share of the generated cases plus corpus rows-b03_* / e2e-b03_*): (a) 1 / 16 / 17 / 64 / 65 rows, the '
+                'record that did not complete first / last / last but one / at index 15 / 16, 1 / 15 / 16 / 17 / all-but-one / all trailing skipped rows, ids '
+                '2^31 / 2^32 apart up to 2^62, end look-alikes (en, endx, End, end-2) and names of up to 4096 bytes, and files robsd-step never writes (empty, no '
+                'final newline, CRLF, blank last line, cut inside the last row: refusal or the answer of the intact rows, nothing else); (b) 1 / 15-17 / 32 / 33 / '
+                '64 / 65 steps with the crash at the first / second / 16th / 17th / last but one / last step, skip first / last / all but one / 15-17, names as in '
+                'C04, failing codes 126 / 127 / 255 / SIGKILL / SIGTERM, a root spelled with a trailing slash (known deviation, own signature)')
     impl = ctx.build_impl()
     drv = ctx.build_driver('rs', withz=True)
     ctx.shims_used = orch_env.SHIMS_USED
@@ -518,7 +757,7 @@ def replay(ctx, rep):
     drv = ctx.build_driver('rs', withz=True)
     if 'rows' in case:
         work = ctx.mkscratch('c03r')
-        print(sh_step_next(impl, work, 0, case['rows']))
+        print(sh_step_next(impl, work, 0, case))
         print(common.run_driver(drv, [' '.join(['next'] + row_toks(case['rows']))]))
     else:
         print(json.dumps(e2e_case(ctx, impl, case), indent=1)[:3000])
